@@ -16,6 +16,11 @@ def run(chk):
         'left/right by binding power, a second non-associative operator directly chained onto its own row or an '
         'operator without operand ends the whole expression; LawFlatten (tree read in order = consumed input) is '
         'model-checked on every table and input',
+        'mechanism layer: the shunting-yard machine of operator_table.py is transcribed in PegVM (OTLoop: two stacks, '
+        'commit marker, two checkpoints, static flags); MC_C02 checks LawVMRefines (the machine computes the Pratt-style '
+        'meaning), LawVMFlags (a failing table that claims it cannot partially succeed leaves the position alone) and '
+        'LawVMNoBadState (no pop from an empty stack, no spinning) on every table and input of the family; OracleVM '
+        'checks the same on the random tables',
     ]
     cases = pegcheck.collect(chk, 'MC_C02', 'MC_C02_' + chk.tier, timeout_s=3000)
     chk.notes['tlc_enumerated_grammars'] = len(cases)
@@ -28,6 +33,6 @@ def run(chk):
         g = og.grammar(4 if i % 2 else 3, ctx=i % 6)
         texts = [og.sentence(maxlen=9 if i % 3 else 14, table=og.last_table) for _ in range(40)]
         rcases.append({'id': i, 'g': g, 'cfg': {'prop': 'C02'}, 'runs': [['start', t, 0] for t in texts]})
-    pegcheck.with_oracle(chk, rcases)
+    pegcheck.with_oracle(chk, rcases, module='OracleVM')      # PegSem's results + VMAgrees (PegVM refines them)
     chk.notes['random_grammars'] = len(rcases)
     pegcheck.replay(chk, rcases, sample_every=9973)
